@@ -121,9 +121,11 @@ func vC11Cmp[T vScalar]() {
 			return
 		}
 		got := vSnapshot[T](rd)
+		// known finding: scalar-on-the-left + unsafe on a one-element tensor writes the result into the scalar's buffer
+		kf1 := variant == "unsafe" && form == "ST" && n == 1
 		for k := 0; k < n; k++ {
 			x, y := xy(k)
-			vAssert(vSameBits(got[k], vOneZero[T](vCmpTruth(op, x, y))), "truth-same-type")
+			vAssertKF(vSameBits(got[k], vOneZero[T](vCmpTruth(op, x, y))), "truth-same-type", "KF-C07-unsafe-cmp1", kf1)
 		}
 	} else {
 		vAssert(rd.Dtype() == Bool, "result-dtype-bool")
